@@ -294,6 +294,8 @@ class Gen:
         table = [("decl", 18), ("assign", 16), ("print", 14), ("expr", 6)]
         if not deep:
             table += [("if", 10), ("for", 7), ("while", 4), ("rfor", 4), ("block", 3), ("switch", self.p["w_switch"]), ("try", self.p["w_try"])]
+        if self.p.get("w_throw"):
+            table += [("throw", self.p["w_throw"])]
         if self.in_loop:
             table += [("break", 2), ("continue", 2)]
         if self.in_func is not None:
@@ -488,6 +490,11 @@ class Gen:
         if self.rng.random() < 0.5:
             return [("if", [(self.bool_expr(1), [("return", e)])], None)]
         return [("return", e)]
+
+    def s_throw(self):
+        # rarely taken, uncaught unless an enclosing try exists
+        r = self.rng
+        return [("if", [(("bin", "==", self.int_expr(1), ("int", r.randrange(0, 50))), [("throw", self.expr(r.choice([INT, STR]), 1))])], None)]
 
     def s_switch(self):
         r = self.rng
